@@ -324,11 +324,14 @@ fn parse_tuple_literal_or_parentheses(
             }
 
             let start_idx = tokens.idx;
-            exprs.push(parse_expression(tokens, id_gen, diagnostics));
-            assert!(
-                tokens.idx > start_idx,
-                "The parser should always make forward progress."
-            );
+            let expr = parse_expression(tokens, id_gen, diagnostics);
+            if tokens.idx == start_idx {
+                // Nothing after the comma that could start an
+                // expression, e.g. `(1,` at the end of the file. The
+                // error has already been reported.
+                break;
+            }
+            exprs.push(expr);
         }
 
         let close_paren = require_token(tokens, diagnostics, ")");
@@ -887,7 +890,7 @@ fn parse_struct_literal_fields(
 
         let expr = parse_expression(tokens, id_gen, diagnostics);
 
-        if tokens.idx == start_idx {
+        if tokens.idx <= start_idx {
             // We haven't made forward progress, the syntax must be
             // very broken. Give up on this struct, consuming until
             // the closing brace.
@@ -930,7 +933,14 @@ fn parse_struct_literal(
     id_gen: &mut IdGenerator,
     diagnostics: &mut Vec<ParseError>,
 ) -> Expression {
+    let start_idx = tokens.idx;
     let name = parse_type_symbol(tokens, id_gen, diagnostics);
+    if tokens.idx == start_idx {
+        // The name is a keyword that parse_symbol reported but did
+        // not consume, e.g. `as{`. We know a `{` follows, so skip the
+        // keyword to make forward progress.
+        tokens.pop();
+    }
     require_token(tokens, diagnostics, "{");
     let fields = parse_struct_literal_fields(tokens, id_gen, diagnostics);
 
@@ -1515,7 +1525,13 @@ fn parse_enum_body(
             break;
         }
 
+        let start_idx = tokens.idx;
         let mut variant = parse_variant(tokens, id_gen, diagnostics);
+        if tokens.idx <= start_idx {
+            // No forward progress, e.g. the file ends after a
+            // comma. The error has already been reported.
+            break;
+        }
 
         if let Some(token) = tokens.peek() {
             if token.text == "," {
@@ -1819,8 +1835,14 @@ fn parse_type_arguments(
                 break token.position;
             }
         }
+        let start_idx = tokens.idx;
         let arg = parse_type_hint(tokens, id_gen, diagnostics);
         let arg_pos = arg.position.clone();
+        if tokens.idx <= start_idx {
+            // No forward progress, e.g. `Result<Int,` at the end of
+            // the file. The error has already been reported.
+            break arg_pos;
+        }
         args.push(arg);
 
         if let Some(token) = tokens.peek() {
@@ -1882,8 +1904,14 @@ fn parse_type_params(
             break;
         }
 
+        let start_idx = tokens.idx;
         let arg = parse_type_symbol(tokens, id_gen, diagnostics);
         let arg_pos = arg.position.clone();
+        if tokens.idx <= start_idx {
+            // No forward progress, e.g. `fun f<T,` at the end of the
+            // file. The error has already been reported.
+            break;
+        }
         params.push(arg);
 
         if let Some(token) = tokens.peek() {
@@ -1979,10 +2007,11 @@ fn parse_tuple_type_hint(
             tokens.pop();
         }
 
-        assert!(
-            tokens.idx > start_idx,
-            "The parser should always make forward progress."
-        );
+        if tokens.idx <= start_idx {
+            // No forward progress, e.g. `(Int,` at the end of the
+            // file. The error has already been reported.
+            break;
+        }
     }
 
     let close_paren = require_token(tokens, diagnostics, ")");
@@ -2010,8 +2039,15 @@ fn parse_type_hint(
         return parse_tuple_type_hint(tokens, id_gen, diagnostics);
     }
 
+    let start_idx = tokens.idx;
     let sym = parse_type_symbol(tokens, id_gen, diagnostics);
-    let (args, close_pos) = parse_type_arguments(tokens, id_gen, diagnostics);
+    let (args, close_pos) = if tokens.idx <= start_idx {
+        // No type name here (e.g. `Option<` at the end of the file),
+        // so what follows isn't its type arguments.
+        (vec![], None)
+    } else {
+        parse_type_arguments(tokens, id_gen, diagnostics)
+    };
 
     let position = match close_pos {
         Some(close_pos) => Position::merge(&sym.position, &close_pos),
@@ -2167,10 +2203,11 @@ fn parse_parameters(
             break;
         }
 
-        assert!(
-            tokens.idx > start_idx,
-            "The parser should always make forward progress."
-        );
+        if tokens.idx <= start_idx {
+            // No forward progress, e.g. `fun f(x,` at the end of the
+            // file. The error has already been reported.
+            break;
+        }
     }
 
     let close_paren = require_token(tokens, diagnostics, ")");
@@ -2800,10 +2837,11 @@ fn parse_let_destination(
                 require_token(tokens, diagnostics, ",");
             }
 
-            assert!(
-                tokens.idx > start_idx,
-                "The parser should always make forward progress."
-            );
+            if tokens.idx <= start_idx {
+                // No forward progress, e.g. `let (x` at the end of
+                // the file. The error has already been reported.
+                break;
+            }
         }
 
         let mut seen: FxHashMap<&String, &Position> = FxHashMap::default();
